@@ -243,3 +243,22 @@ def eval_int(e, env, depth=0):
                 'Eq': int(x == y), 'Ne': int(x != y), 'Lt': int(x < y), 'Le': int(x <= y), 'Gt': int(x > y), 'Ge': int(x >= y)}.get(op)
     except Exception:
         return None
+
+
+def cmp_branch(st, ev):
+    """normal form of a boolean branch event: (call-or-bin expression that was tested, truth of that test on this path) where negations
+    (`!x`, `x == false`, `x != true`) and value-preserving wrappers are peeled off, so `if !helper(..)` after inlining reads like `if a != b`"""
+    d = strip(resolve(st, ev[2]))
+    truth = branch_truth(ev)
+    for _ in range(6):
+        d = strip(d)
+        if d[0] == 'un' and d[1] == 'Not':
+            d, truth = d[2], not truth
+        elif d[0] == 'cast':
+            d = d[1]
+        elif d[0] == 'bin' and d[1] in ('Eq', 'Ne') and strip(d[3])[0] == 'const' and strip(d[3])[1] in (0, 1) and strip(d[2])[0] in ('call', 'un', 'bin'):
+            want = bool(strip(d[3])[1])
+            d, truth = d[2], (truth == want) if d[1] == 'Eq' else (truth != want)
+        else:
+            break
+    return strip(d), truth
